@@ -19,22 +19,23 @@ NAMESPACE = 'VL.C13'
 LEAN_MODULES = ['VotelibProofs.Props.C13']
 GEN_MODULES = ['RankScore']
 REQUIRED = [
-    'firstPreference_eq_accum', 'firstPreference_sum', 'firstPreference_additive', 'firstPreference_additive_merged',
-    'firstPreference_single', 'firstPreference_weight_conserved', 'firstPreference_is_dict', 'firstPreference_keys',
-    'approvalToSimple_sum', 'approvalToSimple_rejects', 'approvalToSimple_additive',
-    'approvalToSimple_additive_merged', 'approvalImage_nodup', 'approvalToSimple_weight_conserved',
-    'presenceCounts_sum', 'presenceCounts_additive', 'presenceCounts_additive_merged', 'presence_of_nodup',
-    'presenceCounts_single', 'presenceCounts_is_dict', 'presenceCounts_weight', 'rankedToApproval_eq_accum',
-    'rankedToApproval_sum', 'rankedToApproval_additive', 'rankedToApproval_additive_merged',
-    'rankedToApproval_single', 'rankedToApproval_same_key', 'rankedToApproval_weight_conserved',
-    'rankedToApproval_is_dict', 'firstN_eq_accum', 'firstN_sum', 'firstN_additive', 'firstN_additive_merged',
-    'firstN_single', 'pyTake_nonneg', 'firstN_weight_conserved', 'firstN_is_dict', 'firstN_flat_image_partial',
-    'firstN_flat_image_witness', 'covers_allRankedCandidates', 'positional_sum', 'positional_additive',
-    'positional_additive_merged', 'rankedToPositional_additive', 'rankedToPositional_keys', 'posImage_eq_sum',
-    'borda_score_at', 'borda_rejects', 'dowdall_score_at', 'geometric_score_at', 'modifiedBorda_score_at',
-    'fixedTop_score_at', 'sequence_score_at', 'positional_borda_rejects', 'condorcet_sum', 'condorcet_additive',
-    'condorcet_additive_merged', 'rankedToCondorcet_additive_nobottom', 'rankedToCondorcet_additive',
-    'condorcet_single', 'above_iff_earlier_place', 'pairwise_le_total', 'pairwise_le_total_merged',
+    'toFun_is_lookup', 'mergeDict_is_sum', 'firstPreference_eq_accum', 'firstPreference_sum',
+    'firstPreference_additive', 'firstPreference_additive_merged', 'firstPreference_single',
+    'firstPreference_weight_conserved', 'firstPreference_is_dict', 'firstPreference_keys', 'approvalToSimple_sum',
+    'approvalToSimple_rejects', 'approvalToSimple_additive', 'approvalToSimple_additive_merged',
+    'approvalImage_nodup', 'approvalToSimple_weight_conserved', 'presenceCounts_sum', 'presenceCounts_additive',
+    'presenceCounts_additive_merged', 'presence_of_nodup', 'presenceCounts_single', 'presenceCounts_is_dict',
+    'presenceCounts_weight', 'rankedToApproval_eq_accum', 'rankedToApproval_sum', 'rankedToApproval_additive',
+    'rankedToApproval_additive_merged', 'rankedToApproval_single', 'rankedToApproval_same_key',
+    'rankedToApproval_weight_conserved', 'rankedToApproval_is_dict', 'firstN_eq_accum', 'firstN_sum',
+    'firstN_additive', 'firstN_additive_merged', 'firstN_single', 'pyTake_nonneg', 'firstN_weight_conserved',
+    'firstN_is_dict', 'firstN_flat_image_partial', 'firstN_flat_image_witness', 'covers_allRankedCandidates',
+    'positional_sum', 'positional_additive', 'positional_additive_merged', 'rankedToPositional_additive',
+    'rankedToPositional_keys', 'posImage_eq_sum', 'borda_score_at', 'borda_rejects', 'dowdall_score_at',
+    'geometric_score_at', 'modifiedBorda_score_at', 'fixedTop_score_at', 'sequence_score_at',
+    'positional_borda_rejects', 'condorcet_sum', 'condorcet_additive', 'condorcet_additive_merged',
+    'rankedToCondorcet_additive_nobottom', 'rankedToCondorcet_additive', 'condorcet_single',
+    'above_iff_earlier_place', 'pairwise_le_total', 'pairwise_le_total_merged',
     'rankedToCondorcet_pairwise_le_total', 'condorcet_irreflexive', 'condorcet_is_dict',
     'pairwise_le_total_needs_nodup', 'scoreToRanked_eq_accum', 'scoreToRanked_sum', 'scoreToRanked_additive',
     'scoreToRanked_additive_merged', 'scoreToRanked_additive_none', 'scoreToRanked_image', 'scoreToRanked_augment',
